@@ -15,16 +15,31 @@ def run_unit(desc):
     mod = importlib.import_module(desc["module"])
     c = next(x for x in mod.CONTRACTS if x.name == desc["name"])
     tier = desc.get("tier", "quick")
-    h = OpHarness(c).run()
+    from . import registry
+
+    callees = []
+    for m in registry.OP_MODULES:
+        callees.extend(getattr(importlib.import_module(m), "CONTRACTS", []))
+    h = OpHarness(c, callees=callees).run()
     rep = {
         "unit": c.uid,
         "kind": "K1 handler refinement",
         "functions": h.functions,
         "results": [r.as_dict() for r in h.results],
         "unsupported": h.unsupported,
+        "callee_contracts_used": sorted(h.used_callees),
         "spec_validation": [],
         "bounded": [],
     }
+    if tier == "thorough" and not h.unsupported:
+        # must-fail obligations: in-memory mutants of the function under contract have to be refuted
+        from . import mutate
+
+        mf = mutate.must_fail(lambda ld: OpHarness(c, loader=ld, callees=callees), c.file, c.func, k=3,
+                              seed=int(os.environ.get("VERIF_SEED", "0") or 0))
+        rep["must_fail"] = dict(mf, unit=c.uid)
+        if mf["mutants"] and mf["killed"] == 0:
+            rep["crash"] = f"vacuity: none of {mf['mutants']} must-fail mutants of {c.uid} was refuted"
     if c.witness:
         rep["replayable"] = {"runner": "diffrun.py", "module": desc["module"], "name": c.name}
         # the executable twin of the spec against the literal list expression (validates the SPEC, bounded)
